@@ -179,6 +179,14 @@ Definition yaml_HTTPBackend (y : YamlData) (u : URL) : URLBackendConfig := {| UR
 Definition flags_GRPCBackend (ctx : Ctx) (u : URL) : URLBackendConfig := {| URLBackendConfig_BaseURL := Some u; URLBackendConfig_CertFile := Ctx_String ctx "grpc_proxy.cert_file"; URLBackendConfig_KeyFile := Ctx_String ctx "grpc_proxy.key_file"; URLBackendConfig_CaFile := Ctx_String ctx "grpc_proxy.ca_file" |}.
 Definition yaml_GRPCBackend (y : YamlData) (u : URL) : URLBackendConfig := {| URLBackendConfig_BaseURL := Some u; URLBackendConfig_CertFile := yS y "grpc_proxy.cert_file" ""; URLBackendConfig_KeyFile := yS y "grpc_proxy.key_file" ""; URLBackendConfig_CaFile := yS y "grpc_proxy.ca_file" "" |}.
 
+(* Comparisons of a generated function with its written-out shape must FAIL FAST when the source
+   changed: both sides are normalised with a fixed list of definitions to unfold (validateConfig and
+   the readers stay folded) and then compared syntactically; a bounded conversion is the fallback. *)
+Ltac same_term :=
+  lazymatch goal with
+  | |- ?a = ?b => first [ constr_eq a b | fail 1 "the two sides differ" ]
+  end; exact eq_refl.
+
 Definition url_section (present : bool) (parsed : option URL) (mk : URL -> URLBackendConfig) (e : Z)
   : result (option URLBackendConfig) :=
   if present then match parsed with Some u => Ok (Some (mk u)) | None => Err (EOther e) end else Ok None.
@@ -191,7 +199,12 @@ Lemma flags_shape up ctx :
   bind (url_section (negb (String.eqb (Ctx_String ctx "grpc_proxy.url") "")) (up (Ctx_String ctx "grpc_proxy.url")) (flags_GRPCBackend ctx) 302)
     (fun gb =>
   bind (validateConfig (model_ext up) (flags_cfg ctx hc gb)) (fun c => Ok c))).
-Proof. reflexivity. Qed.
+Proof.
+  cbv beta iota zeta delta [get newFromArgs flags_cfg url_section flags_HTTPBackend flags_GRPCBackend
+    flags_HTTPAddress flags_GRPCAddress flags_ProfileAddress model_ext url_Parse net_JoinHostPort strconv_Itoa
+    newFromYamlFile].
+  same_term.
+Qed.
 
 Definition http_keys : list string := ["http_proxy.url"; "http_proxy.cert_file"; "http_proxy.key_file"; "http_proxy.ca_file"].
 Definition grpc_keys : list string := ["grpc_proxy.url"; "grpc_proxy.cert_file"; "grpc_proxy.key_file"; "grpc_proxy.ca_file"].
@@ -226,7 +239,11 @@ Lemma NewFromYaml_shape up y :
   | Some yc => bind (validateConfig (model_ext up) (yaml_post yc)) (fun c => Ok c)
   | None => Err (EOther 201)
   end.
-Proof. reflexivity. Qed.
+Proof.
+  cbv beta iota zeta delta [NewFromYaml yaml_post yaml_defaults model_ext yaml_Unmarshal net_JoinHostPort strconv_Itoa
+    sort_Float64s].
+  same_term.
+Qed.
 
 Lemma yaml_post_normal yc :
   yaml_post yc =
@@ -277,7 +294,7 @@ Proof.
   fold http_keys. fold grpc_keys. fold dummy_url.
   destruct (if yaml_present y http_keys then up (yS y "http_proxy.url" "") else Some dummy_url) as [u0|]; [|reflexivity].
   destruct (if yaml_present y grpc_keys then up (yS y "grpc_proxy.url" "") else Some dummy_url) as [u1|]; [|reflexivity].
-  f_equal. f_equal. rewrite yaml_post_normal. reflexivity.
+  f_equal. f_equal. rewrite yaml_post_normal. vm_compute. same_term.
 Qed.
 
 (* ------------------------------------------------------------------ *)
@@ -496,7 +513,7 @@ Section Main.
     sec "gcs_proxy.bucket" "gcs_proxy.bucket".
     fold G. fold y.
     rewrite hard_limit_eq, <- key_version_eq.
-    rewrite ldap_section_eq, s3_section_eq. reflexivity.
+    rewrite ldap_section_eq, s3_section_eq. same_term.
   Qed.
 
   Lemma http_backend_eq u : flags_HTTPBackend ctx u = yaml_HTTPBackend y u.
